@@ -195,9 +195,9 @@ fn handle_kinds(repr: u8) -> &'static [u8] {
 /// ops that make sense for a thread with handle kind h
 fn ops_for(h: u8) -> &'static [u8] {
     match h {
-        1 => &[0, 2, 4, 5, 6, 3],       // &Bytes: clone through it, read, then drop / convert the clone
-        2 => &[2, 8, 9, 4, 11],         // BytesMut half
-        _ => &[1, 2, 3, 4, 5, 6, 7, 10], // own Bytes
+        1 => &[0, 2, 4, 5, 6, 3, 12],       // &Bytes: clone through it, read, is_unique, then drop / convert the clone
+        2 => &[2, 8, 9, 4, 11],             // BytesMut half
+        _ => &[1, 2, 3, 4, 5, 6, 7, 10, 12], // own Bytes
     }
 }
 
@@ -281,6 +281,11 @@ pub fn curated() -> Vec<Program> {
         p(5, false, vec![(1, vec![0, 2, 4]), (1, vec![0, 2, 6])], vec![2]),
         p(5, true, vec![(1, vec![0, 2]), (1, vec![0, 2]), (1, vec![0, 2, 4])], vec![6]),
         p(6, false, vec![(1, vec![0, 2, 7]), (1, vec![0, 2, 4])], vec![5]),
+        // is_unique() through a &Bytes while another thread makes the first clone (promotion) through the same &Bytes
+        p(0, false, vec![(1, vec![12, 2]), (1, vec![0, 2, 4])], vec![2]),
+        p(0, true, vec![(1, vec![12, 12]), (1, vec![0, 4])], vec![5]),
+        p(6, false, vec![(1, vec![12]), (1, vec![0, 12, 4])], vec![6]),
+        p(1, false, vec![(0, vec![12, 4]), (4, vec![12, 5])], vec![]),
         // three threads
         p(0, false, vec![(1, vec![0, 2]), (1, vec![0, 4]), (1, vec![0, 6])], vec![5]),
         p(2, false, vec![(0, vec![2, 4]), (2, vec![8, 2]), (4, vec![3, 4, 4])], vec![]),
